@@ -105,13 +105,13 @@ def _cyclic(d):
 
 
 def _build_universe_deck(rng, depth=None, macro_p=0.15, tr_p=0.1, fill_tr_p=0.6, trcl_p=0.3, reuse_p=0.4,
-                        rot_classes=None, lattice_p=0.0, lat_kind=None, lat_tr_p=0.0, lat_trcl_p=0.0):
+                        rot_classes=None, lattice_p=0.0, lat_kind=None, lat_tr_p=0.0, lat_trcl_p=0.0, lat_big_p=0.0):
     d = D.Deck()
     next_id = [rng.randint(1, 9)]
     depth = depth if depth is not None else rng.randint(1, 3)
     nuniv = [0]
 
-    def new_universe(level):
+    def new_universe(level, host=None):
         nuniv[0] += 1
         u = nuniv[0] * rng.choice([1, 1, 2]) + (10 if rng.random() < .3 else 0)
         while any(c.u == u for c in d.cells) or u == 0:
@@ -120,10 +120,17 @@ def _build_universe_deck(rng, depth=None, macro_p=0.15, tr_p=0.1, fill_tr_p=0.6,
             from . import gen_lat
             gen_lat.add_lattice_universe(d, rng, u, next_id, lambda: new_universe(level + 1) if level < depth else None,
                                          kind=lat_kind, lat_tr_p=lat_tr_p, lat_trcl_p=lat_trcl_p,
-                                         rot_classes=rot_classes)
+                                         rot_classes=rot_classes, big_p=lat_big_p)
             return u
         surfs = _add_surfaces(d, rng, rng.randint(1, 3), macro_p, tr_p)
-        cells = _partition(d, rng, _refs(surfs, rng), rng.randint(1, 3), rng.randint(1, 2), u, next_id)
+        refs = _refs(surfs, rng)
+        if host is not None and rng.random() < 0.3:
+            # the universe is also cut by a surface of the cell it fills (the same card, read in the universe's own
+            # frame): "the rest of the world" cells of a universe are often written with the container's surface
+            shared = [('s', abs(l[1])) for l in D.expr_leaves(host.expr) if l[0] == 's']
+            if shared:
+                refs.append(rng.choice(shared))
+        cells = _partition(d, rng, refs, rng.randint(1, 3), rng.randint(1, 2), u, next_id)
         if level < depth:
             for c in cells:
                 if rng.random() < 0.4:
@@ -138,9 +145,9 @@ def _build_universe_deck(rng, depth=None, macro_p=0.15, tr_p=0.1, fill_tr_p=0.6,
             u = rng.choice(universes)
             # do not create cycles: only reuse universes that do not (transitively) contain c's universe
             if _reaches(d, u, c.u):
-                u = new_universe(level)
+                u = new_universe(level, host=c)
         else:
-            u = new_universe(level)
+            u = new_universe(level, host=c)
         universes.append(u)
         if u not in by_trcl:
             by_trcl[u] = reuse_p > 0 and rng.random() < 0.3
